@@ -43,9 +43,17 @@ def _grid():
                     for virt in ((False, True) if (op != 'names' and not load and not callapi) else (False,)):
                         out.append(dict(bname=bname, envb=envb, apikw=apikw, use_env=use_env, native=native, devs=devs, op=op,
                                         pname=pname, callapi=callapi, load=load, virt=virt, envset=''.join('01'[x] for x in envset)))
+    # the port constructor itself fails (device problem, bad argument): the error reaches the caller, nothing else is opened
+    for bname in (None, 'fakeb/NAMEAPI'):
+        for op in ('open_input', 'open_output', 'open_ioport'):
+            for native in (True, False):
+                for exc in ('AttributeError', 'OSError'):
+                    out.append(dict(bname=bname, envb=None, apikw=False, use_env=True, native=native, devs=False, op=op, pname=True, callapi=False,
+                                    load=False, virt=False, envset='0' * len(_ENVVARS_N[op]), fails=exc))
     return tuple(out)
 
 
+_ENVVARS_N = {'open_input': '0', 'open_output': '0', 'open_ioport': '000', 'names': ''}
 _ENVVARS = {'open_input': ('MIDO_DEFAULT_INPUT',), 'open_output': ('MIDO_DEFAULT_OUTPUT',),
             'open_ioport': ('MIDO_DEFAULT_INPUT', 'MIDO_DEFAULT_OUTPUT', 'MIDO_DEFAULT_IOPORT'), 'names': ()}
 
@@ -67,11 +75,15 @@ class BackendGrid(Contract):
     target = B + 'Backend.__init__'
     properties = ('C20',)
     configs = _grid()
-    raises = {}
+    raises = {AttributeError: 'constructor_failed', OSError: 'constructor_failed'}
     symbolic_only = True
 
     def callee(self, h, cfg):
         return _OP.get(h)
+
+    def constructor_failed(self, h, cfg, a, pr):
+        # only the first constructor call was made, and it is the one that failed
+        return cfg.get('fails') == pr.cls.__name__ and len(h.log) == 1
 
     def setup(self, h, cfg, ip):
         h.imports, h.log = [], []
@@ -94,6 +106,8 @@ class BackendGrid(Contract):
         def rec(kind):
             def f(ipx, *args, **kwargs):
                 h.log.append((kind, args, dict(kwargs)))
+                if cfg.get('fails') and kind in ('Input', 'Output', 'IOPort'):
+                    raise PyRaise({'AttributeError': AttributeError, 'OSError': OSError}[cfg['fails']], ('constructor of the backend port failed',))
                 if kind == 'get_devices':
                     return [dict(name='in1', is_input=True, is_output=False), dict(name='io1', is_input=True, is_output=True),
                             dict(name='out1', is_input=False, is_output=True), dict(name='io2', is_input=True, is_output=True),
@@ -130,6 +144,8 @@ class BackendGrid(Contract):
 
     def ensures(self, h, cfg, a, r):
         import mido.ports as MP
+        if cfg.get('fails'):
+            return {'a-failing-port-constructor-is-not-swallowed': False}
         b, loaded_before, res = r
         exp_name = cfg['bname'] or cfg['envb'] or 'mido.backends.rtmidi'
         exp_mod = exp_name.split('/', 1)[0]
